@@ -116,7 +116,13 @@ func runConcurrent(c *fw.Ctx, idx int, r *fw.Rand) {
 	withRemover := idx%3 != 0
 	maxTx := 3
 	if withRemover {
-		maxTx = 8
+		// many short transactions into few, mostly empty mailboxes: the interesting moment is a
+		// delivery arriving while the other party takes the mailbox's last message out
+		maxTx = 30
+		nsess = r.Range(3, 8)
+		if r.Bool() {
+			boxes = boxes[:1]
+		}
 	}
 	type tx struct {
 		subject string
